@@ -105,7 +105,8 @@ fn main() {
             std::panic::set_hook(Box::new(|_| {}));
             let reads_pct: u32 = arg_value(&args, "--reads-pct").map(|value| value.parse().unwrap()).unwrap_or(0);
             let mut final_out = arg_value(&args, "--out").map(|path| BufWriter::new(std::fs::File::create(&path).expect("create out")));
-            let outcome = stress::run(seed, rounds, threads, ops, Duration::from_millis(timeout_ms), reads_pct,
+            let shutdown_mid = args.iter().any(|arg| arg == "--shutdown-mid");
+            let outcome = stress::run(seed, rounds, threads, ops, Duration::from_millis(timeout_ms), reads_pct, shutdown_mid,
                                       final_out.as_mut().map(|writer| writer as &mut dyn Write));
             if let Some(writer) = final_out.as_mut() { writer.flush().unwrap(); }
             println!("STRESS {}", serde_json::json!({"rounds": outcome.rounds, "ops": outcome.ops, "stall": outcome.stall}));
@@ -121,7 +122,11 @@ fn main() {
             std::panic::set_hook(Box::new(|_| {}));
             let out_path = arg_value(&args, "--out").expect("--out");
             let mut out = BufWriter::new(std::fs::File::create(&out_path).expect("create out"));
-            let outcome = hist::run(seed, rounds, writers, readers, ops, Duration::from_millis(timeout_ms), &mut out);
+            let outcome = if arg_value(&args, "--mode").as_deref() == Some("hot") {
+                hist::run_hot(seed, rounds, readers, ops, Duration::from_millis(timeout_ms), &mut out)
+            } else {
+                hist::run(seed, rounds, writers, readers, ops, Duration::from_millis(timeout_ms), &mut out)
+            };
             out.flush().unwrap();
             println!("STRESS {}", serde_json::json!({"rounds": outcome.rounds, "ops": outcome.calls, "stall": outcome.stall}));
             if outcome.stall.is_some() { std::process::exit(3); }
